@@ -5,7 +5,7 @@ carries D1 (exact length), D2 (canonical range), D3 (membership in the prime-ord
 subgroup), D4 (Ed25519: not the identity), and returns exactly the decoded value;
 D5: finish() uses the peer's bytes only through that function (and raw, in the
 transcript)."""
-from ..terms import Const, Sym, App, TupleV, Obj, mk_app, is_app, show, subterms
+from ..terms import ty_of, Const, Sym, App, TupleV, Obj, mk_app, is_app, show, subterms
 from ..loader import AnalysisError
 from ..poly import Poly, term_poly
 from .. import session, groupmodel as gm
@@ -55,7 +55,7 @@ def integer_group(ctx, world, ev):
     ctx.require(rets, "integer group: bytes_to_element(b) has no accepting path")
     ctx.count("decoder_paths", len(outs))
     f = st.heap[g.oid]
-    width = f.get("element_size_bytes")
+    width = gm.attr_of(ev, g, "element_size_bytes", st)
     ctx.require(width is not None, "anchor vanished: integer group has no element_size_bytes")
     p, q = syms["p"], syms["q"]
     gname = g.cls.name
@@ -99,7 +99,7 @@ def ed25519(ctx, world, ev):
     rets = session.rets(outs)
     ctx.require(rets, "Ed25519: bytes_to_element(b) has no accepting path")
     ctx.count("decoder_paths", len(outs))
-    width = world.static.heap[G.oid].get("element_size_bytes")
+    width = gm.attr_of(ev, G, "element_size_bytes", world.static)
     ctx.require(isinstance(width, Const), "anchor vanished: Ed25519 group element_size_bytes")
     order_outs = session.rets(ev.run_method(G, "order", [], st=world.static.fork()))
     ctx.require(len(order_outs) == 1 and isinstance(order_outs[0].value, Const), "anchor vanished: Ed25519 group order()")
@@ -148,6 +148,17 @@ def ed25519(ctx, world, ev):
         if flip:
             x0 = x.args[1]
             ok = has_ne(conds, x0, Const(0)) or has_ne(conds, x, Const(Q)) or upper_bound(conds, x, Const(Q)) == "strict"
+            if not ok:
+                # the flip is taken because the root is odd (an odd number is not 0): directly, or as
+                # "parity(root) != sign" on a path where the sign bit is known to be 0
+                from ..terms import subst
+                zeros = {t: Const(0) for (t, p) in conds if p is False and ty_of(t) == "int"}
+                zeros.update({(t.args[0] if t.args[1] == Const(0) else t.args[1]): Const(0) for (t, p) in conds
+                              if is_app(t, "Eq") and p is True and Const(0) in t.args})
+                for (t, p) in conds:
+                    t2 = subst(t, zeros) if zeros else t
+                    if gm.odd_fact(t, p, x0) is True or gm.odd_fact(t2, p, x0) is True:
+                        ok = True
             ctx.ob("D2-sign", inst, ok, "sign-flip path excludes x == 0" if ok else
                    "sign-flip path accepts x == 0: the encoding with the sign bit set on x = 0 is a second encoding of the same point", fsite)
         # ---- D3a on-curve test is the curve equation
